@@ -4,7 +4,7 @@
 (* encoding is the object {"addr": <address>} whatever T is and whether    *)
 (* the handle owns or borrows the address (C20).                           *)
 (***************************************************************************)
-EXTENDS Naturals, Sequences, TLC
+EXTENDS Naturals, Sequences, FiniteSets, TLC
 
 TypeParams == {"contract", "generic", "dyn", "dyn_assoc", "unit"}
 
@@ -25,6 +25,11 @@ C20_SingleMemberAddr == stage # "handle" => DOMAIN enc = {"addr"} /\ enc.addr = 
 C20_DecodesToSameAddress == stage = "decoded" => back.addr = h.addr
 (* type independence: any two handles to the same address have the same encoding *)
 C20_TypeIndependent(handles) == \A a, b \in handles : a.addr = b.addr => Enc(a) = Enc(b)
+
+(* the schema of a state holding several handles: one definition, named independently of the type parameters, *)
+(* which every handle field refers to                                                                         *)
+SchemaName(x) == "Remote"                    \* nothing about ty / owned
+C20_OneDefinition(handles) == Cardinality({SchemaName(x) : x \in handles}) <= 1
 
 (* tagged JSON of the prescribed encoding of address text t *)
 EncJson(t) == [t |-> "o", f |-> << [k |-> "addr", v |-> [t |-> "s", v |-> t]] >>]
